@@ -144,6 +144,10 @@ def run(rep):
 def conversion_chain(term):
     """classify how a WGSL name reaches Ident::new: ('identity'|'affixed'|'case-mapped'|'other', detail)"""
     arg = term[2][0]
+    dyn = [False]
+    E.walk(arg, lambda x: dyn.__setitem__(0, True) if x[0] in ('param', 'idx', 'vf', 'unwrap', 'mcall', 'call', 'new', 'acc', 'unknown', 'reccall', 'callv') else None)
+    if not dyn[0]:
+        return 'literal', 'identifier spelled in the generator source'
     if arg[0] == 'fmt':
         tmpl = arg[1]
         lit = re.sub(r'\{[^}]*\}', '', tmpl)
